@@ -58,7 +58,7 @@ static void run_trace_header(int argc, char **argv) {
     }
     if (conf_mem) { conf.mem_alloc = vf_conf_malloc; conf.mem_calloc = vf_conf_calloc; conf.mem_free = vf_conf_free; }
     packed = conf.is_packed; boundary = conf.alignment_boundary; init_size = size; is_fixed = conf.is_fixed;
-    enum cc_stat s = dflt ? cc_dynamic_pool_new(size, &pool) : cc_dynamic_pool_new_conf(size, &conf, &pool);
+    enum cc_stat s = VF_OUT(pool, dflt ? cc_dynamic_pool_new(size, &pool) : cc_dynamic_pool_new_conf(size, &conf, &pool));
     printf("new %s", vf_stat(s));
     if (s == CC_OK) obs(); else { pool = NULL; printf(" |"); vf_ledger(); }
 }
